@@ -275,6 +275,34 @@ def observe_rmsd(ctx, t, m, hist):
             ctx.violation("traces.precentered-modifies", "rmsd(precentered=True):distorts-xyz", "rmsd(precentered=True) changed the coordinates by more than a per-frame translation")
 
 
+def observe_as_reference(ctx, t, m, hist):
+    """The live object serves as the REFERENCE on which another, fresh trajectory is superposed; the result must be the one
+    obtained with a brand-new Trajectory holding the same arrays (whatever was done to or with the object before:
+    earlier superpositions on it, in-place moves of it).  The same frame is used most of the time, so that anything an
+    earlier call may have left on the object for that frame would be reused."""
+    import mdtraj as md
+    rng = hist["rng"]
+    fr = 0 if rng.random() < 0.7 else int(rng.integers(0, t.n_frames))
+    mob = (rng.normal(size=(2, t.n_atoms, 3)) + rng.uniform(-2, 2, (1, 1, 3))).astype(np.float32)
+    fresh = md.Trajectory(np.array(t.xyz, copy=True), t.topology)
+    try:
+        a = md.Trajectory(mob.copy(), t.topology).superpose(t, frame=fr).xyz
+        b = md.Trajectory(mob.copy(), t.topology).superpose(fresh, frame=fr).xyz
+    except Exception as e:
+        ctx.violation("reference.fresh-vs-used", f"superpose(reference=object):raises:{type(e).__name__}", f"after {hist['ops']}: {e!r}")
+        return
+    hist["ref_uses"] = hist.get("ref_uses", 0) + 1
+    ctx.observe("used_as_reference", "first use" if hist["ref_uses"] == 1 else "repeated use")
+    if np.array_equal(a, b):
+        ctx.ok("reference.fresh-vs-used")
+    else:
+        cause = next((o for o in reversed(hist["ops"]) if not o.startswith("obs_")), "none")
+        ctx.violation("reference.fresh-vs-used", f"superpose-on-used-object-differs-from-fresh-copy:after:{cause}",
+                      f"superposing a trajectory on frame {fr} of the object differs from superposing it on a fresh Trajectory with the same "
+                      f"coordinates (max {float(np.abs(a - b).max()):.4g} nm) after {hist['ops']}")
+    check_fields(ctx, t, m, "superpose(other, reference=this)", exact=True)
+
+
 def run_case(case, ctx):
     if case["kind"] == "immutable":
         return run_immutable(case, ctx)
@@ -507,7 +535,11 @@ def run_case(case, ctx):
         if rng.random() < 0.35:
             hist["ops"].append("obs_rmsd")
             observe_rmsd(ctx, t, m, hist)
+        if rng.random() < 0.3:
+            hist["ops"].append("obs_reference")
+            observe_as_reference(ctx, t, m, hist)
     observe_rmsd(ctx, t, m, hist)
+    observe_as_reference(ctx, t, m, hist)
 
 
 def _index(m, sel):
